@@ -54,6 +54,14 @@ class error_997_visitor(error_visitor.error_visitor):
         self.st_control_num = 0
         self.st_loop_count = 0
 
+    def _echo(self, value):
+        """
+        A value copied from the received document must not add or split elements or segments of this document
+        """
+        for term in (self.seg_term, self.ele_term, self.subele_term):
+            value = value.replace(term, ' ')
+        return value
+
     def visit_root_pre(self, errh):
         """
         @param errh: Error handler
@@ -67,17 +75,17 @@ class error_997_visitor(error_visitor.error_visitor):
         icvn = seg.get_value('ISA12')
         isa_seg = pyx12.segment.Segment('ISA*00*          *00*          ',
                                         self.seg_term, self.ele_term, self.subele_term)
-        isa_seg.append(seg.get_value('ISA07'))
-        isa_seg.append(seg.get_value('ISA08'))
-        isa_seg.append(seg.get_value('ISA05'))
-        isa_seg.append(seg.get_value('ISA06'))
+        isa_seg.append(self._echo(seg.get_value('ISA07')))
+        isa_seg.append(self._echo(seg.get_value('ISA08')))
+        isa_seg.append(self._echo(seg.get_value('ISA05')))
+        isa_seg.append(self._echo(seg.get_value('ISA06')))
         isa_seg.append(time.strftime('%y%m%d'))  # Date
         isa_seg.append(time.strftime('%H%M'))  # Time
         isa_seg.append(seg.get_value('ISA11'))
         isa_seg.append(icvn)
         isa_seg.append(self.isa_control_num)  # ISA Interchange Control Number
         isa_seg.append('0') # No need for TA1 response to 997
-        isa_seg.append(seg.get_value('ISA15'))
+        isa_seg.append(self._echo(seg.get_value('ISA15')))
         isa_seg.append(self.subele_term)
         self._write(isa_seg)
         self.isa_seg = isa_seg
@@ -87,12 +95,12 @@ class error_997_visitor(error_visitor.error_visitor):
         seg = errh.cur_gs_node.seg_data
         gs_seg = pyx12.segment.Segment('GS', '~', '*', ':')
         gs_seg.append('FA')
-        gs_seg.append(seg.get_value('GS03').rstrip())
-        gs_seg.append(seg.get_value('GS02').rstrip())
+        gs_seg.append(self._echo(seg.get_value('GS03')).rstrip())
+        gs_seg.append(self._echo(seg.get_value('GS02')).rstrip())
         gs_seg.append(time.strftime('%Y%m%d'))
         gs_seg.append(time.strftime('%H%M%S'))
-        gs_seg.append(seg.get_value('GS06'))
-        gs_seg.append(seg.get_value('GS07'))
+        gs_seg.append(self._echo(seg.get_value('GS06')))
+        gs_seg.append(self._echo(seg.get_value('GS07')))
         gs_seg.append('004010')
         self._write(gs_seg)
         self.gs_seg = gs_seg
@@ -158,9 +166,9 @@ class error_997_visitor(error_visitor.error_visitor):
             #seg = ['TA1', err_isa.isa_trn_set_id, err_isa.orig_date, \
             #    err_isa.orig_time]
             ta1_seg = pyx12.segment.Segment('TA1', '~', '*', ':')
-            ta1_seg.append(err_isa.isa_trn_set_id)
-            ta1_seg.append(err_isa.orig_date)
-            ta1_seg.append(err_isa.orig_time)
+            ta1_seg.append(self._echo(err_isa.isa_trn_set_id))
+            ta1_seg.append(self._echo(err_isa.orig_date))
+            ta1_seg.append(self._echo(err_isa.orig_time))
             err_codes = self.__get_isa_errors(err_isa)
             if err_codes:
                 err_cde = err_codes[0]
@@ -205,7 +213,7 @@ class error_997_visitor(error_visitor.error_visitor):
         #seg = ['AK1', err_gs.fic, err_gs.gs_control_num]
         #self._write(seg)
         self._write(pyx12.segment.Segment('AK1*%s*%s' %
-                                          (err_gs.fic, err_gs.gs_control_num), '~', '*', ':'))
+                                          (self._echo(err_gs.fic), self._echo(err_gs.gs_control_num)), '~', '*', ':'))
 
     def __get_gs_errors(self, err_gs):
         """
@@ -293,8 +301,8 @@ class error_997_visitor(error_visitor.error_visitor):
         @type err_st: L{error_handler.err_st}
         """
         seg_data = pyx12.segment.Segment('AK2', '~', '*', ':')
-        seg_data.append(err_st.trn_set_id)
-        seg_data.append(err_st.trn_set_control_num.strip())
+        seg_data.append(self._echo(err_st.trn_set_id))
+        seg_data.append(self._echo(err_st.trn_set_control_num).strip())
         self._write(seg_data)
 
     def __get_st_errors(self, err_st):
@@ -345,10 +353,10 @@ class error_997_visitor(error_visitor.error_visitor):
         #seg_base = ['AK3', err_seg.seg_id, '%i' % err_seg.seg_count]
         valid_AK3_codes = ('1', '2', '3', '4', '5', '6', '7', '8')
         seg_base = pyx12.segment.Segment('AK3', '~', '*', ':')
-        seg_base.append(err_seg.seg_id)
+        seg_base.append(self._echo(err_seg.seg_id))
         seg_base.append('%i' % err_seg.seg_count)
         if err_seg.ls_id:
-            seg_base.append(err_seg.ls_id)
+            seg_base.append(self._echo(err_seg.ls_id))
         else:
             seg_base.append('')
         seg_str = seg_base.format('~', '*', ':')
@@ -388,10 +396,7 @@ class error_997_visitor(error_visitor.error_visitor):
                 seg_data = pyx12.segment.Segment(seg_str, '~', '*', ':')
                 seg_data.set('AK403', err_cde)
                 if bad_value:
-                    # the echoed value must not add or split elements or segments of this document
-                    for term in (self.seg_term, self.ele_term, self.subele_term):
-                        bad_value = bad_value.replace(term, ' ')
-                    seg_data.set('AK404-1', bad_value)
+                    seg_data.set('AK404-1', self._echo(bad_value))
                 self._write(seg_data)
 
     def _write(self, seg_data):
